@@ -341,8 +341,8 @@ var baseTable = FunctionTable{
 	},
 	"log": Function{
 		impl.Log,
-		0,
-		0,
+		1,
+		1,
 		false,
 	},
 	"power": Function{
